@@ -37,9 +37,30 @@ func like(left, right string) (string, error) {
 		return fmt.Sprintf("%s ~ %s", left, right), nil
 	}
 
-	right = strings.ReplaceAll(right, "*", "%")
-	right = strings.ReplaceAll(right, "?", "_")
-	return fmt.Sprintf("%s SIMILAR TO %s", left, right), nil
+	return fmt.Sprintf("%s SIMILAR TO %s", left, translateWildcards(right)), nil
+}
+
+// translateWildcards converts the lucene wildcards * and ? to their SQL counterparts % and _.
+// A wildcard character that is escaped with a backslash is not a wildcard and is left as it is.
+func translateWildcards(in string) string {
+	out := make([]byte, 0, len(in))
+	for i := 0; i < len(in); i++ {
+		switch in[i] {
+		case '\\':
+			out = append(out, in[i])
+			if i+1 < len(in) {
+				i++
+				out = append(out, in[i])
+			}
+		case '*':
+			out = append(out, '%')
+		case '?':
+			out = append(out, '_')
+		default:
+			out = append(out, in[i])
+		}
+	}
+	return string(out)
 }
 
 func likeParam(left, right string, params []any) (string, error) {
